@@ -10,12 +10,22 @@ import importlib
 from .land import KINDS, with_timeout, _rep, _guard
 
 
-def pid_gone(pid):
-    """True if no such process, or it is a zombie (dead, waiting to be reaped)."""
+def pid_gone(pid, exiting_counts=False):
+    """True if no such process, or it is a zombie (dead, waiting to be reaped). With exiting_counts (used where the library has
+    *said* "dead" and the probe verifies it at once) also if the kernel is tearing it down (PF_EXITING: it runs no code of its own any
+    more; its descriptors - the sentinel its parent waits on - are closed a moment before it turns into a zombie). Where a death is
+    the *premise* of the next step the strict form is used: only then can the library find out through waitpid()."""
     try:
         with open('/proc/%d/stat' % pid) as f:
-            st = f.read().rsplit(')', 1)[-1].split()[0]
-        return st in ('Z', 'X')
+            fields = f.read().rsplit(')', 1)[-1].split()
+        if fields[0] in ('Z', 'X'):
+            return True
+        if not exiting_counts:
+            return False
+        try:
+            return bool(int(fields[6]) & 0x4)
+        except (IndexError, ValueError):
+            return False
     except (FileNotFoundError, ProcessLookupError):
         return True
 
@@ -247,7 +257,7 @@ class Script:
                     time.sleep(0.002)
                 return {'ret': not w._child.is_alive()}
             while True:
-                g = pid_gone(w.pid)
+                g = pid_gone(w.pid, exiting_counts=bool(op.get('exiting_counts')))
                 if g or time.time() >= dl:
                     return {'ret': g}
                 time.sleep(0.005)
